@@ -227,6 +227,32 @@ def bounded(b):
             arr = roll.toarray()
             got = {(int(r), int(c)): int(arr[r, c]) for r, c in zip(*np.nonzero(arr))}
             b.case("roll/object_inputs_show_every_part", arr.shape == (M, N) and got == cells, case, "shape %r, on the common grid of %d divisions per quarter the notes span %r" % (arr.shape, L, (M, N)))
+    # a Part whose spellings cross the octave boundary (B sharp sounds the C above, C flat the B below): the row is the SOUNDING pitch
+    from gen import oracles as O
+    sp = G.build_part("P0", 2, notes=[("s0", 0, 2, "B", 1, 3, 1, 1), ("s1", 2, 2, "C", -1, 5, 1, 1), ("s2", 4, 2, "B", 2, 4, 1, 1), ("s3", 6, 2, "C", -2, 4, 1, 1), ("s4", 8, 2, "E", 1, 4, 1, 1), ("s5", 10, 2, "F", -1, 4, 1, 1)])
+    for kw in ({}, {"piano_range": True}, {"pitch_margin": 2}):
+        case = {"input": "Part with B sharp, C flat, B double sharp, C double flat", "options": kw}
+        ok, res = b.guard("roll/no_exception", case, lambda: compute_pianoroll(sp, time_unit="div", time_div=1, remove_silence=False, **kw))
+        if ok:
+            notes = [(O.spelled_pitch(n), n.start.t, n.end.t - n.start.t, 1) for n in sp.notes]
+            M, N, cells, _ = raster(notes, 1, False, False, kw.get("pitch_margin", -1), 0, bool(kw.get("piano_range")), False, None, False, False)
+            arr = res.toarray()
+            got = {(int(r), int(c)): int(arr[r, c]) for r, c in zip(*np.nonzero(arr))}
+            b.case("roll/object_inputs_show_every_part", arr.shape == (M, N) and got == cells, case, "shape %r (expected %r); rows used %r, sounding pitches %r" % (
+                arr.shape, (M, N), sorted({r for r, _ in got}), sorted({n[0] for n in notes})))
+    # a PerformedPart: a note sounds until its sounding end; with the threshold at 127 (documented: pedal off) a pedal value of 127 holds nothing
+    for thr, want_end in ((64, 2.0), (127, 1.0), (100, 1.0)):
+        pp = pf.PerformedPart([dict(id="n0", midi_pitch=60, note_on=0.0, note_off=1.0, velocity=80, track=0, channel=0), dict(id="n1", midi_pitch=67, note_on=2.0, note_off=3.0, velocity=50, track=0, channel=0)],
+                              controls=[dict(number=64, time=0.5, value=(127 if thr != 100 else 100), track=0, channel=0), dict(number=64, time=2.0, value=0, track=0, channel=0)], id="P0")
+        pp.sustain_pedal_threshold = thr
+        case = {"input": "PerformedPart", "pedal_value_between_the_notes": 127 if thr != 100 else 100, "sustain_pedal_threshold": thr}
+        ok, res = b.guard("roll/no_exception", case, lambda: compute_pianoroll(pp, time_unit="sec", time_div=4, remove_silence=False))
+        if ok:
+            M, N, cells, _ = raster([(60, 0.0, want_end, 80), (67, 2.0, 1.0, 50)], 4, False, False, -1, 0, False, False, None, False, True)
+            arr = res.toarray()
+            got = {(int(r), int(c)): int(arr[r, c]) for r, c in zip(*np.nonzero(arr))}
+            b.case("roll/object_inputs_show_every_part", arr.shape == (M, N) and got == cells, case, "shape %r (expected %r); the note of pitch 60 fills columns %r, it sounds until %.2f s" % (
+                arr.shape, (M, N), sorted(c for (r, c) in got if r == 60), want_end))
     # drum channel filtering
     for ch in ([0, 9, 1], [9, 9, 0], [10, 9, 15], [8, 11, 9]):
         notes = [(60, 0.0, 1.0, 64), (36, 0.0, 1.0, 100), (62, 1.0, 1.0, 70)]
